@@ -8,7 +8,7 @@ from collections import Counter
 from .facts import SKETCH_CLASSES, const_int, facts_of
 from .flow import Arr, Bytes, Num, Opaque, Tup, conjuncts, show_cond
 from .lin import Lin, show_lin
-from .model import AnalysisError, call_name, calls_in, dotted, self_attr, unparse, walk_no_nested
+from .model import AnalysisError, call_name, calls_in, dotted, resolve_temps, self_attr, unparse, walk_no_nested
 from .rules_arith import agg, fact_strs, group_by_node, on_path, on_path_h, src
 
 H = "helpers"
@@ -23,6 +23,31 @@ def _process_calls(func):
             tgt = kw.get("target")
             out.append((n, tgt.id if isinstance(tgt, ast.Name) else None, kw.get("args"), kw.get("kwargs")))
     return out
+
+
+def _resolved(func, expr):
+    """`expr` with the function's single-assignment temporaries replaced by their definitions (also loop-local ones)."""
+    return resolve_temps(func.node, expr, allow_subscript=True, pure_only=False, in_loops=True, loose=True)
+
+
+def _appends(func):
+    """[(list name, appended expression (resolved), call node)] for every `<name>.append(x)` in func."""
+    out = []
+    for n in walk_no_nested(func.node):
+        if isinstance(n, ast.Call) and isinstance(n.func, ast.Attribute) and n.func.attr == "append" and len(n.args) == 1 \
+                and isinstance(n.func.value, ast.Name):
+            out.append((n.func.value.id, _resolved(func, n.args[0]), n))
+    return out
+
+
+def workers_list(pa, wk):
+    """Name of the list that receives the Process(target=_worker, ...) objects."""
+    for name, v, n in _appends(pa):
+        if isinstance(v, ast.Call) and isinstance(v.func, ast.Attribute) and v.func.attr == "Process":
+            kw = {k.arg: k.value for k in v.keywords}
+            if isinstance(kw.get("target"), ast.Name) and kw["target"].id == wk.name:
+                return name
+    return None
 
 
 def _top_index(func, node):
@@ -145,135 +170,230 @@ def rule_pills(ctx):
 # once / nrecs / cb-guard  (_worker)
 # ---------------------------------------------------------------------------
 
-def _worker_shape(ctx):
-    F = facts_of(ctx)
-    wk = ctx.model.func(H, "_worker")
-    ctx.analysed_funcs.add(wk.key)
-    loops = [n for n in wk.body() if isinstance(n, ast.While)]
-    if len(loops) != 1:
-        raise AnalysisError("_worker: expected one top-level `while` loop, found %d" % len(loops))
-    lp = loops[0]
-    cb = None
-    # the callback parameter: the one called with (q_item, *local_sketches, **kwargs)
-    for n in walk_no_nested(lp):
-        if isinstance(n, ast.Call) and isinstance(n.func, ast.Name) and n.func.id in wk.params and any(isinstance(a, ast.Starred) for a in n.args):
-            cb = cb or n
-    wk._cb_calls = [n for n in walk_no_nested(wk.node) if cb is not None and isinstance(n, ast.Call) and isinstance(n.func, ast.Name) and n.func.id == cb.func.id]
-    gets = [n for n in walk_no_nested(lp) if isinstance(n, ast.Call) and isinstance(n.func, ast.Attribute) and n.func.attr == "get"]
-    return wk, lp, cb, gets
+class WorkerFacts:
+    """Roles inside _worker, found from values rather than names or statement shapes:
+      get      -- the call events `<queue parameter>.get()` inside the worker loop
+      cb       -- the call events of the callback parameter (called with a starred list of local sketches)
+      loop     -- the worker loop (the loop in which both happen)
+      is_pill  -- for an event: True/False/None = its path decided `item is None` that way
+    """
+
+    def __init__(self, ctx):
+        F = facts_of(ctx)
+        self.wk = wk = ctx.model.func(H, "_worker")
+        ctx.analysed_funcs.add(wk.key)
+        self.w = w = F.walk(wk)
+        calls = [e for e in w.events if e.kind == "call" and isinstance(e.node, ast.Call)]
+        self.cb = [e for e in calls if isinstance(e.node.func, ast.Name) and e.node.func.id in wk.params
+                   and any(isinstance(a, ast.Starred) for a in e.node.args)]
+        self.get = [e for e in calls if isinstance(e.node.func, ast.Attribute) and e.node.func.attr == "get"
+                    and isinstance(e.node.func.value, ast.Name) and e.node.func.value.id in wk.params and e.loops]
+        self.loop_node = None
+        if self.get:
+            self.loop_node = self.get[0].loops[0].node
+        self.cb_nodes = {id(e.node) for e in self.cb}
+        self.get_nodes = {id(e.node) for e in self.get}
+
+    def in_loop(self, ev):
+        return bool(ev.loops) and ev.loops[0].node is self.loop_node
+
+    def item_of(self, ev):
+        """The value taken from the queue in the iteration `ev` belongs to (last get on its path in the same loop execution)."""
+        gs = [x for x in on_path_h(self.w.events, ev) if id(x.node) in self.get_nodes and x.loops and ev.loops and x.loops[0] is ev.loops[0]]
+        return gs[-1] if gs else None
+
+    def is_pill(self, ev, getev):
+        if getev is None:
+            return None
+        item = getev.result if hasattr(getev, "result") else None
+        for (_, _, cc) in ev.path:
+            for c in conjuncts(cc):
+                pol = True
+                while c[0] == "not":
+                    c, pol = c[1], not pol
+                if c[0] == "atom" and isinstance(c[1], tuple) and c[1][0] == "cmp" and c[1][1] in ("is", "eq"):
+                    info = c[2] or {}
+                    a, b = info.get("a"), info.get("b")
+                    for x, y in ((a, b), (b, a)):
+                        if x is item and isinstance(y, Opaque) and y.desc == ("const", None):
+                            return pol
+        return None
+
+
+def _wf(ctx):
+    return ctx.shared("worker-facts", lambda: WorkerFacts(ctx))
 
 
 def rule_once(ctx):
-    F = facts_of(ctx)
-    wk, lp, cb, gets = _worker_shape(ctx)
-    w = F.walk(wk)
-    inq = None
-    if gets:
-        inq = dotted(gets[0].func.value)
-    okk = len(gets) == 1 and inq in wk.params and gets[0].lineno == lp.body[0].lineno
-    ctx.ob("once", wk, gets[0] if gets else lp, "q_item = in_queue.get()", "each iteration takes exactly one item from the work queue, first thing", bool(okk))
-    if cb is None or not gets:
+    W = _wf(ctx)
+    wk, w = W.wk, W.w
+    lp = W.loop_node
+    if not W.get or lp is None:
+        ctx.ob("once", wk, wk.node, "q_item = in_queue.get()", "the worker takes its items from the work queue inside a loop", False, "no <queue>.get() in a loop")
+        return
+    if not W.cb:
         ctx.ob("once", wk, lp, "process_q_item(q_item, *local_sketches, **kwargs)", "the callback is applied to the item", False, "callback call not found")
         return
-    # item variable
-    itemvar = None
-    for s in lp.body:
-        if isinstance(s, ast.Assign) and s.value is gets[0] and isinstance(s.targets[0], ast.Name):
-            itemvar = s.targets[0].id
-    a0 = cb.args[0] if cb.args else None
-    star = [a for a in cb.args if isinstance(a, ast.Starred)]
-    okk = isinstance(a0, ast.Name) and a0.id == itemvar and len(cb.args) == 2 and len(star) == 1 and any(k.arg is None for k in cb.keywords)
-    ctx.ob("once", wk, cb, unparse(cb, 80), "the callback receives (item, *local sketches, **kwargs)", bool(okk))
-    # local sketches: one attach per descriptor, in order
-    sk = [n for n in wk.body() if isinstance(n, ast.For) and n.lineno < lp.lineno]
-    oka = False
-    for n in sk:
-        cs = [c for c in calls_in(n) if dotted(c.func) == "attach_shared_memory"]
-        ap = [c for c in calls_in(n) if isinstance(c.func, ast.Attribute) and c.func.attr == "append"]
-        if cs and ap and isinstance(n.iter, ast.Name) and n.iter.id in wk.params and star and dotted(ap[0].func.value) == unparse(star[0].value):
-            oka = True
-    ctx.ob("once", wk, sk[0] if sk else wk.node, "for s in sketch: local_sketches.append(attach_shared_memory(*s))",
+    cbn = W.cb[0].node
+    star = [a for a in cbn.args if isinstance(a, ast.Starred)]
+    # (a) callback arguments: (this iteration's item, *local sketches, **kwargs)
+    res = []
+    for e in W.cb:
+        g = W.item_of(e)
+        a0 = e.args[0] if e.args else None
+        okk = g is not None and a0 is getattr(g, "result", None) and len(e.node.args) == 2 and len(star) == 1 and any(k.arg is None for k in e.node.keywords)
+        res.append((bool(okk), "callback(item, *local sketches, **kwargs)" if okk else "the callback does not receive (the item just taken, *local sketches, **kwargs)", fact_strs(e)))
+    agg(ctx, "once", wk, cbn, unparse(cbn, 80), "the callback receives (item, *local sketches, **kwargs)", res)
+    # (b) local sketches: one attach per descriptor of the `sketch` parameter, in order
+    oka, where = False, wk.node
+    if star and isinstance(star[0].value, ast.Name):
+        lname = star[0].value.id
+        for n in walk_no_nested(wk.node):
+            # local_sketches = [attach_shared_memory(*s) for s in sketch]
+            if isinstance(n, ast.Assign) and isinstance(n.targets[0], ast.Name) and n.targets[0].id == lname and isinstance(n.value, ast.ListComp):
+                lc = n.value
+                if len(lc.generators) == 1 and not lc.generators[0].ifs and isinstance(lc.generators[0].iter, ast.Name) and lc.generators[0].iter.id in wk.params \
+                        and isinstance(lc.generators[0].target, ast.Name) and _is_attach_of(lc.elt, lc.generators[0].target.id):
+                    oka, where = True, n
+            # for s in sketch: local_sketches.append(attach_shared_memory(*s))
+            if isinstance(n, ast.For) and isinstance(n.iter, ast.Name) and n.iter.id in wk.params and isinstance(n.target, ast.Name) and not n.orelse:
+                aps = [(nm, v, c) for nm, v, c in _appends(wk) if nm == lname and n.lineno <= c.lineno <= n.end_lineno]
+                escapes = [x for x in walk_no_nested(n) if isinstance(x, (ast.Break, ast.Continue, ast.Return, ast.If))]
+                if len(aps) == 1 and not escapes and _is_attach_of(aps[0][1], n.target.id):
+                    oka, where = True, n
+    ctx.ob("once", wk, where, "for s in sketch: local_sketches.append(attach_shared_memory(*s))",
            "the worker attaches one local view per descriptor, in the order given (alphabetical cms, hh, hll)", oka)
-    # paths: continue-paths call the callback exactly once; exit paths never, and only on a None item
-    lends = [e for e in w.events if e.kind == "loopend" and e.loop.node is lp]
-    rets = [e for e in w.events if e.kind == "ret" and not e.implicit and lp.lineno <= e.line <= lp.end_lineno]
+    # (c) every way through one iteration: exactly one get first; a real item is processed exactly once and the loop goes on;
+    #     the pill is not processed and ends the loop
+    cont = [e for e in w.events if e.kind == "loopend" and e.loop.node is lp]
+    exits = [e for e in w.events if (e.kind == "loopbreak" and e.loop.node is lp) or (e.kind == "ret" and e.loops and e.loops[0].node is lp)]
     res = []
-    for e in lends:
-        evs = [x for x in on_path_h(w.events, e) if x.loops and x.loops[-1] is e.loops[-1] or (x.loops and e.loops[-1] in x.loops)]
-        n_get = len({id(x.node) for x in evs if x.kind == "call" and x.node is gets[0]})
-        n_cb = len([x for x in evs if x.kind == "call" and x.node in wk._cb_calls])
-        res.append((n_get == 1 and n_cb == 1, "one get, one callback" if n_get == 1 and n_cb == 1 else
-                    "a path through the loop body makes %d get() and %d callback call(s)" % (n_get, n_cb), fact_strs(e)))
-    agg(ctx, "once", wk, lp, "loop body (item path)", "an item taken from the queue is processed exactly once before the next is taken", res)
+    for e in cont:
+        evs = [x for x in on_path_h(w.events, e) if x.loops and x.loops[0] is e.loops[0]]
+        n_get = len([x for x in evs if id(x.node) in W.get_nodes])
+        n_cb = len([x for x in evs if id(x.node) in W.cb_nodes])
+        pill = W.is_pill(e, W.item_of(e))
+        okk = n_get == 1 and n_cb == 1 and pill is False
+        res.append((okk, "one get, one callback, item is not None" if okk else
+                    ("a path through the loop body makes %d get() and %d callback call(s)" % (n_get, n_cb) if (n_get, n_cb) != (1, 1) else
+                     "the loop continues although the item may be the poison pill"), fact_strs(e)))
+    agg(ctx, "once", wk, lp, "loop body (item path)", "an item taken from the queue is processed exactly once before the next is taken", res or [(False, "the loop never continues", [])])
     res = []
-    for r in rets:
-        evs = on_path(w.events, r)
-        n_cb = len([x for x in evs if x.kind == "call" and x.node in wk._cb_calls and x.loops and r.loops and x.loops[-1] is r.loops[-1]])
-        # the exit is taken on the None branch
-        none_branch = any(isinstance(s.test, ast.Compare) and isinstance(s.test.ops[0], (ast.Is, ast.IsNot)) and
-                          isinstance(s.test.left, ast.Name) and s.test.left.id == itemvar and
-                          (taken == isinstance(s.test.ops[0], ast.Is)) for (s, taken, cc) in r.path if isinstance(s, ast.If))
-        res.append((n_cb == 0 and none_branch, "worker returns only on the poison pill, without processing it" if n_cb == 0 and none_branch else
-                    "worker can return on a real item or after processing one", fact_strs(r)))
-    if not rets:
-        res.append((False, "the worker never returns"))
-    agg(ctx, "once", wk, rets[0].node if rets else lp, "return on the poison pill", "None ends the worker on every path, and only None does", res)
-    # no other exit from the loop
-    brk = [n for n in walk_no_nested(lp) if isinstance(n, ast.Break)]
-    ctx.ob("once", wk, brk[0] if brk else lp, "no break", "the loop ends only through the pill's return", not brk)
+    for e in exits:
+        evs = [x for x in on_path_h(w.events, e) if x.loops and x.loops[0] is e.loops[0]]
+        n_get = len([x for x in evs if id(x.node) in W.get_nodes])
+        n_cb = len([x for x in evs if id(x.node) in W.cb_nodes])
+        pill = W.is_pill(e, W.item_of(e))
+        okk = n_cb == 0 and pill is True and n_get == 1
+        res.append((okk, "the worker stops only on the poison pill, without processing it" if okk else
+                    "the worker can stop on a real item or after processing one", fact_strs(e)))
+    if not exits:
+        res.append((False, "the worker never returns", []))
+    agg(ctx, "once", wk, exits[0].node if exits else lp, "stop on the poison pill", "None ends the worker on every path, and only None does", res)
+    # (d) the loop has no other way out (its own test never ends it)
+    t = lp.test if isinstance(lp, ast.While) else None
+    always = isinstance(t, ast.Constant) and bool(t.value) is True
+    ctx.ob("once", wk, lp, "while %s" % (unparse(t, 30) if t is not None else "?"), "the loop ends only through the pill", bool(always),
+           "" if always else "the loop condition can end the loop without a pill having been received")
+    # (e) the get is the first thing an iteration does (nothing is processed before an item is taken)
+    res = []
+    for g in W.get:
+        before = [x for x in on_path_h(w.events, g) if x.loops and x.loops[0] is g.loops[0] and x.kind == "call"]
+        res.append((not before, "the get comes first" if not before else "`%s` runs before the item is taken" % unparse(before[0].node, 50), fact_strs(g)))
+    agg(ctx, "once", wk, W.get[0].node, "q_item = in_queue.get()", "each iteration takes exactly one item from the work queue, first thing", res)
+
+
+def _is_attach_of(expr, var):
+    """attach_shared_memory(*var)"""
+    return isinstance(expr, ast.Call) and dotted(expr.func) == "attach_shared_memory" and len(expr.args) == 1 and not expr.keywords \
+        and isinstance(expr.args[0], ast.Starred) and isinstance(expr.args[0].value, ast.Name) and expr.args[0].value.id == var
 
 
 def rule_nrecs(ctx):
-    F = facts_of(ctx)
-    wk, lp, cb, gets = _worker_shape(ctx)
-    w = F.walk(wk)
-    lends = [e for e in w.events if e.kind == "loopend" and e.loop.node is lp]
-    # n_records accumulation: on every item path exactly one `acc += n_recs`
-    acc = None
-    for n in walk_no_nested(lp):
-        if isinstance(n, ast.AugAssign) and isinstance(n.op, ast.Add) and isinstance(n.target, ast.Name) and isinstance(n.value, ast.Name):
-            acc = n
-    if acc is None:
-        ctx.ob("nrecs", wk, lp, "n_records += n_recs", "the worker accumulates the callback's return value", False, "no accumulation found")
+    W = _wf(ctx)
+    wk, w, lp = W.wk, W.w, W.loop_node
+    if lp is None or not W.cb:
+        ctx.ob("nrecs", wk, wk.node, "n_records += n_recs", "the worker accumulates the callback's return value", False, "worker loop / callback not found")
         return
-    accname, recname = acc.target.id, acc.value.id
+    # the accumulator: the local whose in-loop update adds the callback's result
+    accs = [e for e in w.events if e.kind == "assign" and e.aug is not None and isinstance(e.aug[0], ast.Add) and W.in_loop(e)
+            and any(e.aug[2] is getattr(c, "result", None) for c in W.cb)]
+    if not accs:
+        ctx.ob("nrecs", wk, lp, "n_records += n_recs", "the worker accumulates the callback's return value", False, "no accumulation of the callback's result found")
+        return
+    accname = accs[0].name
+    cont = [e for e in w.events if e.kind == "loopend" and e.loop.node is lp]
     res = []
-    for e in lends:
-        evs = [x for x in on_path(w.events, e) if x.kind == "assign" and x.name == accname and x.loops and e.loops[-1] in x.loops]
+    for e in cont:
+        evs = [x for x in on_path(w.events, e) if x.kind == "assign" and x.name == accname and x.loops and x.loops[0] is e.loops[0]]
+        handler = any(isinstance(pol, tuple) and pol and pol[0] == "handler" or pol == "handler" for (_, pol, _) in e.path)
         okk = len(evs) == 1 and evs[0].aug is not None and isinstance(evs[0].aug[0], ast.Add)
-        res.append((okk, "one accumulation per item" if okk else "%d accumulations on an item path" % len(evs), fact_strs(e)))
-    agg(ctx, "nrecs", wk, acc, "%s += %s" % (accname, recname), "the record count grows once per processed item", res)
-    # n_recs is the callback's return value on the success path
-    okk = False
-    for n in walk_no_nested(lp):
-        if isinstance(n, ast.Assign) and n.value is cb and isinstance(n.targets[0], ast.Name) and n.targets[0].id == recname:
-            okk = True
-    ctx.ob("nrecs", wk, cb or lp, "%s = process_q_item(...)" % recname, "the amount accumulated is the callback's return value", okk)
-    # initialised to zero before the loop
-    init = [s for s in wk.body() if isinstance(s, ast.Assign) and isinstance(s.targets[0], ast.Name) and s.targets[0].id == accname and s.lineno < lp.lineno]
-    ctx.ob("nrecs", wk, init[0] if init else wk.node, "%s = 0" % accname, "the record count starts at zero", bool(init) and const_int(init[0].value) == 0)
-    # on the pill path: each local sketch's n_added_records[1] += n_records, once
-    fin = []
-    for n in walk_no_nested(lp):
-        if isinstance(n, ast.AugAssign) and isinstance(n.op, ast.Add) and isinstance(n.target, ast.Subscript) \
-                and isinstance(n.target.value, ast.Attribute) and n.target.value.attr == "n_added_records":
-            fin.append(n)
-    okk = len(fin) == 1 and const_int(fin[0].target.slice) == 1 and accname in {x.id for x in ast.walk(fin[0].value) if isinstance(x, ast.Name)}
-    ctx.ob("nrecs", wk, fin[0] if fin else lp, "local_sketch.n_added_records[1] += n_records", "at the pill the worker adds its record count to slot 1 of each sketch, once", bool(okk))
-    if fin:
-        # inside a for over all local sketches, on the None branch
-        encl = [n for n in walk_no_nested(lp) if isinstance(n, ast.For) and n.lineno <= fin[0].lineno <= n.end_lineno]
-        okk = len(encl) == 1 and isinstance(encl[0].iter, ast.Name)
-        ctx.ob("nrecs", wk, encl[0] if encl else fin[0], "for local_sketch in local_sketches", "every local sketch receives the count", bool(okk))
+        if okk:
+            amt = evs[0].aug[2]
+            cbs = [x for x in on_path_h(w.events, e) if id(x.node) in W.cb_nodes and x.loops and x.loops[0] is e.loops[0]]
+            if handler:
+                okk = isinstance(amt, Num) and amt.lin == Lin.const(0)
+                why = "a failed item adds 0" if okk else "a failed item adds %r instead of 0" % (amt,)
+            else:
+                okk = bool(cbs) and amt is getattr(cbs[-1], "result", None)
+                why = "the callback's return value is added" if okk else "the amount added is not this item's callback result"
+        else:
+            why = "%d accumulations on an item path" % len(evs)
+        res.append((bool(okk), why, fact_strs(e)))
+    agg(ctx, "nrecs", wk, accs[0].node, "%s += <callback result>" % accname, "the record count grows once per processed item, by the callback's return value", res)
+    # starts at zero
+    ls = [x for x in w.events if x.kind == "loopstart" and x.node is lp]
+    init = ls[0].envsnap.get(accname) if ls else None
+    okk = isinstance(init, Num) and init.lin == Lin.const(0)
+    ctx.ob("nrecs", wk, lp, "%s = 0" % accname, "the record count starts at zero", bool(okk))
+    # at the pill: every local sketch's n_added_records[1] += accumulated count, exactly once
+    fin = [e for e in w.events if e.kind == "otherstore" and isinstance(e.target, ast.Subscript) and isinstance(e.target.value, ast.Attribute)
+           and e.target.value.attr == "n_added_records"]
+    star = [a for a in W.cb[0].node.args if isinstance(a, ast.Starred)]
+    lname = star[0].value.id if star and isinstance(star[0].value, ast.Name) else None
+    rets = [e for e in w.events if e.kind == "ret"]
+    res = []
+    for r in rets:
+        pre = on_path_h(w.events, r)
+        fl = [x for x in pre if x.kind == "loopstart" and isinstance(x.node, ast.For) and isinstance(x.node.iter, ast.Name) and x.node.iter.id == lname
+              and any(f.loops and f.loops[-1] is x.loop for f in fin)]
+        okk = len(fl) == 1
+        res.append((okk, "one pass over the local sketches adds the count" if okk else "%d finalisation passes on a path that returns" % len(fl), fact_strs(r)))
+    agg(ctx, "nrecs", wk, fin[0].node if fin else wk.node, "for local_sketch in local_sketches", "every local sketch receives the count exactly once before the worker returns", res or [(False, "the worker never returns", [])])
+    res = []
+    seen_loops = {}
+    for f in fin:
+        if f.loops:
+            seen_loops.setdefault(id(f.loops[-1]), f.loops[-1])
+    for lid, floop in seen_loops.items():
+        for le in [x for x in w.events if x.kind == "loopend" and x.loop is floop]:
+            handler = any(isinstance(pol, tuple) and pol and pol[0] == "handler" or pol == "handler" for (_, pol, _) in le.path[-2:])
+            mine = [f for f in on_path_h(w.events, le) if f in fin and f.loops and f.loops[-1] is floop]
+            if handler and not mine:
+                continue        # a sketch without record counters (HyperLogLog): the attribute error is swallowed
+            ok1 = len(mine) == 1
+            ok2 = False
+            if ok1:
+                f = mine[0]
+                slot = const_int(f.target.slice)
+                amt = f.aug[2] if f.aug is not None and isinstance(f.aug[0], ast.Add) else None
+                ok2 = slot == 1 and isinstance(amt, Num) and any(t[0] == "var" and t[1] == accname for t in amt.lin.terms()) and len(amt.lin.terms()) == 1 \
+                    and amt.lin.k == 0
+                obj = f.target.value.value
+                ok2 = ok2 and isinstance(obj, ast.Name) and isinstance(floop.node.target, ast.Name) and obj.id == floop.node.target.id
+            res.append((bool(ok1 and ok2), "n_added_records[1] += %s" % accname if ok1 and ok2 else
+                        ("%d updates per sketch" % len(mine) if not ok1 else "the update is not `<this sketch>.n_added_records[1] += %s`" % accname), fact_strs(le)))
+    agg(ctx, "nrecs", wk, fin[0].node if fin else wk.node, "local_sketch.n_added_records[1] += n_records",
+        "at the pill the worker adds its record count to slot 1 of each sketch, once", res or [(False, "no update of n_added_records found", [])])
 
 
 def rule_cb_guard(ctx):
-    F = facts_of(ctx)
-    wk, lp, cb, gets = _worker_shape(ctx)
-    w = F.walk(wk)
-    if cb is None:
-        ctx.ob("cb-guard", wk, lp, "process_q_item(...)", "callback call found", None)
+    W = _wf(ctx)
+    wk, w, lp = W.wk, W.w, W.loop_node
+    if not W.cb or lp is None:
+        ctx.ob("cb-guard", wk, wk.node, "process_q_item(...)", "callback call found", None)
         return
+    cb = W.cb[0].node
     tries = [n for n in walk_no_nested(lp) if isinstance(n, ast.Try) and any(x is cb for s in n.body for x in ast.walk(s))]
     if not tries:
         ctx.ob("cb-guard", wk, cb, unparse(cb, 60), "the callback is called inside try/except", False,
@@ -289,35 +409,20 @@ def rule_cb_guard(ctx):
            "the handler catches every Exception of the callback", broad, "" if broad else "only narrower exception types are caught")
     esc = [n for h in t.handlers for s in h.body for n in walk_no_nested(s) if isinstance(n, (ast.Raise, ast.Return, ast.Break))]
     ctx.ob("cb-guard", wk, esc[0] if esc else t, "handler body", "the handler neither re-raises nor leaves the loop: the other items are still processed", not esc)
-    # handler sets the per-item count to literal 0
-    recname = None
-    for n in walk_no_nested(lp):
-        if isinstance(n, ast.Assign) and n.value is cb and isinstance(n.targets[0], ast.Name):
-            recname = n.targets[0].id
-    zero = False
-    for h in t.handlers:
-        for s in h.body:
-            if isinstance(s, ast.Assign) and isinstance(s.targets[0], ast.Name) and s.targets[0].id == recname and const_int(s.value) == 0:
-                zero = True
-    ctx.ob("cb-guard", wk, t, "except ...: %s = 0" % recname, "a failed item contributes 0 records", zero,
-           "" if zero else "the handler does not set the item's record count to 0 (n_records would count failed items or use a stale value)")
-    # the accumulation follows on both paths (flow): each loopend path has one accumulation whose amount is the call result or 0
-    lends = [e for e in w.events if e.kind == "loopend" and e.loop.node is lp]
+    # the failure path: the iteration still ends normally (loop continues) having added exactly 0 records
+    cont = [e for e in w.events if e.kind == "loopend" and e.loop.node is lp]
+    hpaths = [e for e in cont if any((isinstance(pol, tuple) and pol and pol[0] == "handler") or pol == "handler" for (_, pol, _) in e.path)]
+    accs = [e for e in w.events if e.kind == "assign" and e.aug is not None and isinstance(e.aug[0], ast.Add) and W.in_loop(e)
+            and any(e.aug[2] is getattr(c, "result", None) for c in W.cb)]
+    accname = accs[0].name if accs else None
     res = []
-    for e in lends:
-        evs = [x for x in on_path(w.events, e) if x.kind == "assign" and x.aug is not None and isinstance(x.aug[0], ast.Add)
-               and x.loops and e.loops[-1] in x.loops and isinstance(x.node, ast.AugAssign) and isinstance(x.node.value, ast.Name) and x.node.value.id == recname]
-        if len(evs) != 1:
-            res.append((False, "%d accumulations" % len(evs), fact_strs(e)))
-            continue
-        amt = evs[0].aug[2]
-        okk = (isinstance(amt, Num) and amt.lin == Lin.const(0)) or isinstance(amt, Opaque)
-        res.append((okk, "amount is the callback's result or 0" if okk else "amount %r" % (amt,), fact_strs(e)))
-    agg(ctx, "cb-guard", wk, t, "n_records += n_recs on both paths", "success adds the callback's count, failure adds 0, and the loop continues", res)
-    # n_recs is not accumulated inside the try body only
-    accs = [n for n in walk_no_nested(lp) if isinstance(n, ast.AugAssign) and isinstance(n.value, ast.Name) and n.value.id == recname]
-    outside = all(not (t.lineno <= a.lineno <= t.end_lineno) for a in accs) and bool(accs)
-    ctx.ob("cb-guard", wk, accs[0] if accs else t, "accumulation after the try", "the accumulation is shared by the success and the failure path", outside)
+    for e in hpaths:
+        evs = [x for x in on_path(w.events, e) if x.kind == "assign" and x.name == accname and x.loops and x.loops[0] is e.loops[0]]
+        okk = len(evs) == 1 and evs[0].aug is not None and isinstance(evs[0].aug[2], Num) and evs[0].aug[2].lin == Lin.const(0)
+        res.append((bool(okk), "a failed item contributes 0 records and the loop goes on" if okk else
+                    "after a failing callback the record count is not increased by exactly 0 (stale or missing per-item count)", fact_strs(e)))
+    agg(ctx, "cb-guard", wk, t, "except ...: n_recs = 0; n_records += n_recs", "a failed item contributes 0 records and the loop continues",
+        res or [(False, "no path continues the loop after a failing callback", [])])
 
 
 # ---------------------------------------------------------------------------
@@ -328,17 +433,27 @@ def sketch_roles(pa):
     """tag -> {'array': name of the per-worker list, 'final': name bound to parallel_merging(array), 'args': parameter}."""
     roles = {}
     facs = {"cms": "CountMin", "hh": "HeavyHitters", "hll": "HyperLogLog"}
+    aps = _appends(pa)
     for tag, fac in facs.items():
         arr = fin = None
-        for n in walk_no_nested(pa.node):
-            if isinstance(n, ast.Call) and isinstance(n.func, ast.Attribute) and n.func.attr == "append" and n.args and isinstance(n.args[0], ast.Call) \
-                    and dotted(n.args[0].func) == fac and isinstance(n.func.value, ast.Name):
-                arr = n.func.value.id
+        ap_nodes = []
+        for name, v, n in aps:
+            if isinstance(v, ast.Call) and dotted(v.func) == fac:
+                arr = name
+                ap_nodes.append((n, v))
+        merges = []
         for n in walk_no_nested(pa.node):
             if isinstance(n, ast.Assign) and isinstance(n.targets[0], ast.Name) and isinstance(n.value, ast.Call) and dotted(n.value.func) == "parallel_merging" \
                     and n.value.args and isinstance(n.value.args[0], ast.Name) and n.value.args[0].id == arr:
                 fin = n.targets[0].id
-        roles[tag] = {"array": arr, "final": fin, "args": "%s_args" % tag}
+                merges.append(n.value)
+        # or collected into a result list:  finals.append(parallel_merging(arr, ...))
+        collected = None
+        for name, v, n in aps:
+            if isinstance(v, ast.Call) and dotted(v.func) == "parallel_merging" and v.args and isinstance(v.args[0], ast.Name) and v.args[0].id == arr:
+                collected = name
+                merges.append(v)
+        roles[tag] = {"array": arr, "final": fin, "args": "%s_args" % tag, "appends": ap_nodes, "merges": merges, "collected": collected}
     return roles
 
 
@@ -347,14 +462,7 @@ def rule_joinfirst(ctx):
     wk = ctx.model.func(H, "_worker")
     ctx.analysed_funcs.add(pa.key)
     body = pa.body()
-    # the list the workers are appended to
-    wl = None
-    for n in walk_no_nested(pa.node):
-        if isinstance(n, ast.Call) and isinstance(n.func, ast.Attribute) and n.func.attr == "append" and n.args and isinstance(n.args[0], ast.Call) \
-                and isinstance(n.args[0].func, ast.Attribute) and n.args[0].func.attr == "Process":
-            kw = {k.arg: k.value for k in n.args[0].keywords}
-            if isinstance(kw.get("target"), ast.Name) and kw["target"].id == wk.name:
-                wl = dotted(n.func.value)
+    wl = workers_list(pa, wk)
     joins = []
     for i, s in enumerate(body):
         if isinstance(s, ast.For) and isinstance(s.iter, ast.Name) and s.iter.id == wl and isinstance(s.target, ast.Name):
@@ -371,17 +479,15 @@ def rule_joinfirst(ctx):
     roles = sketch_roles(pa)
     for tag, fac in (("cms", "CountMin"), ("hh", "HeavyHitters"), ("hll", "HyperLogLog")):
         arr, fin = roles[tag]["array"], roles[tag]["final"]
-        if arr is None or fin is None:
+        m = roles[tag]["merges"]
+        if arr is None or not m:
             ctx.ob("joinfirst", pa, pa.node, "%s sketches" % tag, "per-worker %s sketches are created and merged" % tag, False,
                    "no list of %s(...) sketches merged by parallel_merging" % fac)
             continue
-        m = [c for _, c in merges if c.args and isinstance(c.args[0], ast.Name) and c.args[0].id == arr]
-        asg = [n for n in walk_no_nested(pa.node) if isinstance(n, ast.Assign) and isinstance(n.targets[0], ast.Name) and n.targets[0].id == fin and n.value in m]
-        ap = [n for n in walk_no_nested(pa.node) if isinstance(n, ast.Call) and dotted(n.func) == arr + ".append" and n.args and isinstance(n.args[0], ast.Call)
-              and dotted(n.args[0].func) == fac]
-        shm = bool(ap) and any(k.arg == "shared_memory" and isinstance(k.value, ast.Constant) and k.value.value is True for k in ap[0].args[0].keywords)
-        okk = len(m) == 1 and len(asg) == 1 and len(ap) == 1 and shm
-        ctx.ob("joinfirst", pa, asg[0] if asg else pa.node, "%s = parallel_merging(%s, ...)" % (fin, arr),
+        ap = roles[tag]["appends"]
+        shm = bool(ap) and any(k.arg == "shared_memory" and isinstance(k.value, ast.Constant) and k.value.value is True for k in ap[0][1].keywords)
+        okk = len(m) == 1 and len(ap) == 1 and shm
+        ctx.ob("joinfirst", pa, m[0] if m else pa.node, "%s = parallel_merging(%s, ...)" % (fin or roles[tag]["collected"], arr),
                "the per-worker %s sketches (shared memory) are exactly what is merged into the result" % tag, okk)
 
 
@@ -406,61 +512,87 @@ def _truth(node, env):
     return None
 
 
+class _TailInterp:
+    """Evaluates the tail of parallel_add (after the workers were joined) for one combination of requested sketches.  Built on the
+    statement/expression evaluator of the merge-tree interpreter: lists, tuples, len, if/elif chains and returns are exact, every
+    other call is an unknown value, and parallel_merging(<array of tag t>, ...) yields the token ("final", t)."""
+
+    def __init__(self, pa, roles, combo):
+        self.inner = MergeTreeInterp(pa, (0, 1), 0)
+        self.inner.call = self.call            # route calls through this object
+        self._base_call = MergeTreeInterp.call
+        self.env = {}
+        for t in ("cms", "hh", "hll"):
+            self.env["%s_args" % t] = {"requested": True} if t in combo else None
+            arr = roles[t]["array"]
+            if arr:
+                self.env[arr] = [("worker-sketch", t)] if t in combo else []
+        self.roles = roles
+
+    def call(self, e, env):
+        d = dotted(e.func)
+        if d == "parallel_merging" and e.args:
+            v = self.inner.ev(e.args[0], env)
+            if isinstance(v, list) and v and isinstance(v[0], tuple) and v[0][0] == "worker-sketch":
+                return ("final", v[0][1])
+            raise MTViolation("parallel_merging is applied to `%s`, which holds no sketches of a requested type" % unparse(e.args[0]))
+        if d == "tuple" and len(e.args) == 1:
+            v = self.inner.ev(e.args[0], env)
+            return tuple(v) if isinstance(v, (list, tuple)) else UNK
+        if d == "list" and len(e.args) == 1:
+            v = self.inner.ev(e.args[0], env)
+            return list(v) if isinstance(v, (list, tuple)) else UNK
+        return self._base_call(self.inner, e, env)
+
+    def run(self, stmts):
+        r = self.inner.block(stmts, self.env)
+        if r is None:
+            return ("ret", None)
+        return r
+
+
 def rule_rettable(ctx):
     pa = ctx.model.func(H, "parallel_add")
+    wk = ctx.model.func(H, "_worker")
     body = pa.body()
-    # the return chain: the last top-level if/elif chain whose bodies return
-    chain = None
-    for s in body:
-        if isinstance(s, ast.If) and any(isinstance(x, ast.Return) for x in s.body):
-            chain = s
-    if chain is None:
-        ctx.ob("rettable", pa, pa.node, "return table", "parallel_add returns through an if/elif table", None)
+    roles = sketch_roles(pa)
+    wl = workers_list(pa, wk)
+    # the tail: everything after the loop that joins the workers
+    start = None
+    for i, s_ in enumerate(body):
+        if isinstance(s_, ast.For) and isinstance(s_.iter, ast.Name) and s_.iter.id == wl and \
+                any(isinstance(c.func, ast.Attribute) and c.func.attr == "join" for c in calls_in(s_)):
+            start = i + 1
+    if start is None:
+        ctx.ob("rettable", pa, pa.node, "return table", "the tail of parallel_add (after the workers were joined) is identifiable", None,
+               "no loop joining the workers found")
         return
     tags = ["cms", "hh", "hll"]
-    roles = sketch_roles(pa)
     import itertools
     for r in range(1, 4):
         for sub in itertools.combinations(tags, r):
-            env = {"%s_args" % t: (t in sub) for t in tags}
-            node = chain
-            got = None
-            und = False
-            while node is not None:
-                v = _truth(node.test, env)
-                if v is None:
-                    und = True
-                    break
-                if v:
-                    rets = [x for x in node.body if isinstance(x, ast.Return)]
-                    got = rets[0] if rets else None
-                    break
-                nxt = node.orelse
-                node = nxt[0] if len(nxt) == 1 and isinstance(nxt[0], ast.If) else None
-                if node is None and nxt:
-                    rets = [x for x in nxt if isinstance(x, ast.Return)]
-                    got = rets[0] if rets else None
-            want = [roles[t]["final"] for t in sub]
-            if und:
-                ctx.ob("rettable", pa, chain, "{%s}" % ",".join(sub), "return table condition readable", None)
+            want = tuple(("final", t) for t in sub)
+            want = want[0] if len(want) == 1 else want
+            label = "{%s}" % ",".join(sub)
+            try:
+                res = _TailInterp(pa, roles, sub).run(body[start:])
+            except MTUndecided as u:
+                ctx.ob("rettable", pa, pa.node, label, "the return value for this combination of requested sketches is computable", None, str(u))
                 continue
-            if got is None:
-                ctx.ob("rettable", pa, chain, "{%s} -> (nothing)" % ",".join(sub), "returns %s" % want, False, "no branch returns for this combination")
+            except MTViolation as v:
+                ctx.ob("rettable", pa, pa.node, label, "the sketches requested are returned, in alphabetical order (cms, hh, hll)", False, str(v))
                 continue
-            v = got.value
-            names = [e.id if isinstance(e, ast.Name) else None for e in (v.elts if isinstance(v, ast.Tuple) else [v])]
-            okk = names == want
-            ctx.ob("rettable", pa, got, "{%s} -> %s" % (",".join(sub), names), "the sketches requested are returned, in alphabetical order (cms, hh, hll)", okk,
-                   "" if okk else "expected %s" % want)
-    # each X_final is assigned under the same condition X_args
-    for t in tags:
-        ok = False
-        for s in body:
-            if isinstance(s, ast.If) and _truth(s.test, {"%s_args" % t: True, **{"%s_args" % o: False for o in tags if o != t}}) \
-                    and not _truth(s.test, {"%s_args" % o: False for o in tags}):
-                if any(isinstance(n, ast.Assign) and isinstance(n.targets[0], ast.Name) and n.targets[0].id == roles[t]["final"] for n in s.body):
-                    ok = True
-        ctx.ob("rettable", pa, pa.node, "%s result defined when %s_args" % (t, t), "each returned name is defined on the path that returns it", ok)
+            got = res[1] if res and res[0] == "ret" else None
+
+            def show(v):
+                if isinstance(v, tuple) and v and v[0] == "final":
+                    return "merged %s" % v[1]
+                if isinstance(v, (tuple, list)):
+                    return "(%s)" % ", ".join(show(x) for x in v)
+                return repr(v)
+            okk = got == want
+            ctx.ob("rettable", pa, pa.node, "%s -> %s" % (label, show(got)), "the sketches requested are returned, in alphabetical order (cms, hh, hll)", okk,
+                   "" if okk else "expected %s" % show(want))
 
 
 GENERATOR_ANNOTATIONS = ("Iterable", "Iterator", "Generator")
@@ -594,6 +726,10 @@ class MergeTreeInterp:
                     base[i] = v
                 else:
                     raise MTUndecided("store `%s`" % unparse(s))
+            elif isinstance(t, (ast.Tuple, ast.List)) and isinstance(v, (tuple, list)) and len(v) == len(t.elts) \
+                    and all(isinstance(x, ast.Name) for x in t.elts):
+                for x, y in zip(t.elts, v):
+                    env[x.id] = y
             else:
                 raise MTUndecided("assignment target `%s`" % unparse(t))
             return None
@@ -758,6 +894,31 @@ class MergeTreeInterp:
             return UNK
         if isinstance(e, ast.Call):
             return self.call(e, env)
+        if isinstance(e, ast.ListComp) and len(e.generators) == 1 and not e.generators[0].is_async:
+            g = e.generators[0]
+            it = self.ev(g.iter, env)
+            if isinstance(it, range):
+                it = list(it)
+            if not isinstance(it, (list, tuple)) or not isinstance(g.target, ast.Name):
+                raise MTUndecided("comprehension over `%s`" % unparse(g.iter))
+            out = []
+            inner = dict(env)
+            for x in it:
+                inner[g.target.id] = x
+                keep = True
+                for c in g.ifs:
+                    t = self.ev(c, inner)
+                    if isinstance(t, Unknown):
+                        raise MTUndecided("comprehension filter `%s`" % unparse(c))
+                    keep = keep and bool(t)
+                if keep:
+                    out.append(self.ev(e.elt, inner))
+            return out
+        if isinstance(e, ast.IfExp):
+            t = self.ev(e.test, env)
+            if isinstance(t, Unknown):
+                raise MTUndecided("conditional expression `%s`" % unparse(e.test))
+            return self.ev(e.body if t else e.orelse, env)
         return UNK
 
     def binop(self, op, a, b):
@@ -948,13 +1109,7 @@ def _monitor(ctx):
     pa = ctx.model.func(H, "parallel_add")
     wk = ctx.model.func(H, "_worker")
     body = pa.body()
-    wl = None
-    for n in walk_no_nested(pa.node):
-        if isinstance(n, ast.Call) and isinstance(n.func, ast.Attribute) and n.func.attr == "append" and n.args and isinstance(n.args[0], ast.Call) \
-                and isinstance(n.args[0].func, ast.Attribute) and n.args[0].func.attr == "Process":
-            kw = {k.arg: k.value for k in n.args[0].keywords}
-            if isinstance(kw.get("target"), ast.Name) and kw["target"].id == wk.name:
-                wl = dotted(n.func.value)
+    wl = workers_list(pa, wk)
     # the monitor: a top-level loop (while/for) containing `.exitcode` tests, located after the worker start loop
     mon = None
     for s in body:
@@ -1120,7 +1275,27 @@ def rule_dead(ctx):
     final_ok, why = False, "monitor shape not understood"
     if isinstance(mon, ast.While):
         t = mon.test
-        if isinstance(t, ast.Name):
+        if isinstance(t, ast.Constant) and bool(t.value) is True:
+            # `while True: ...inspect...; if not <flag>: break` -- the loop is left only by a break that follows the inspecting pass
+            # of the same iteration and is guarded by the flag that pass computes
+            brks = [n for n in mon.body if isinstance(n, ast.If) and any(isinstance(x, ast.Break) for x in n.body) and not n.orelse]
+            top_fors = [f for f in fors if f in mon.body]
+            other_exits = [n for n in ast.walk(mon) if isinstance(n, (ast.Break, ast.Return)) and not any(n in ast.walk(b) for b in brks)]
+            if len(brks) == 1 and top_fors and not other_exits and mon.body.index(brks[0]) > mon.body.index(top_fors[-1]):
+                bt = brks[0].test
+                flag = bt.operand.id if isinstance(bt, ast.UnaryOp) and isinstance(bt.op, ast.Not) and isinstance(bt.operand, ast.Name) else None
+                resets = [n for n in mon.body if isinstance(n, ast.Assign) and isinstance(n.targets[0], ast.Name) and n.targets[0].id == flag
+                          and isinstance(n.value, ast.Constant) and n.value.value is False]
+                sets = [n for f in top_fors for n in ast.walk(f) if isinstance(n, ast.Assign) and isinstance(n.targets[0], ast.Name) and n.targets[0].id == flag
+                        and isinstance(n.value, ast.Constant) and n.value.value is True]
+                same_for = any(node.lineno >= f.lineno and node.end_lineno <= f.end_lineno for f in top_fors for node, _, _ in fb)
+                if flag and resets and sets and same_for and mon.body.index(resets[0]) < mon.body.index(top_fors[0]):
+                    final_ok, why = True, ""
+                else:
+                    why = "the break is not guarded by a flag recomputed by the pass that inspects the exit codes"
+            else:
+                why = "the monitor is left by something other than one break placed after the inspecting pass"
+        elif isinstance(t, ast.Name):
             flag = t.id
             # flag is reset to False before, and set True inside, the for that inspects the exit codes
             resets = [n for n in mon.body if isinstance(n, ast.Assign) and isinstance(n.targets[0], ast.Name) and n.targets[0].id == flag
